@@ -462,6 +462,11 @@ def _group(tlist, cls, match,
 
     tidx_offset = 0
     pidx, prev_ = None, None
+    # The opening and closing token of a parenthesis or of square brackets
+    # belong to that group, they are never operands of a joining pass.
+    delimiters = ()
+    if isinstance(tlist, (sql.Parenthesis, sql.SquareBrackets)):
+        delimiters = (tlist.tokens[0], tlist.tokens[-1])
     for idx, token in enumerate(list(tlist)):
         tidx = idx - tidx_offset
         if tidx < 0:  # tidx shouldn't get negative
@@ -475,7 +480,8 @@ def _group(tlist, cls, match,
 
         if match(token):
             nidx, next_ = tlist.token_next(tidx)
-            if prev_ and valid_prev(prev_) and valid_next(next_):
+            if prev_ and valid_prev(prev_) and valid_next(next_) \
+                    and prev_ not in delimiters and next_ not in delimiters:
                 from_idx, to_idx = post(tlist, pidx, tidx, nidx)
                 grp = tlist.group_tokens(cls, from_idx, to_idx, extend=extend)
 
